@@ -1,6 +1,10 @@
 //! Per-property checks and the shared workload runners.
 
 pub mod c01;
+pub mod c02;
+pub mod c03;
+pub mod c04;
+pub mod c12;
 
 use std::time::Instant;
 
@@ -65,6 +69,94 @@ pub fn run(cfg: &RunCfg, t0: Instant) -> i32 {
                 cfg.seed,
                 "exploration",
                 "W-pool: seeded random interleaving of 7 accounts' messages (swaps, routes, deposits of every shape, single-asset and locked deposits, withdrawals, pool creations, donations, config changes, malformed messages) over 6+ pools sharing denoms; the backing identity is evaluated after every message; distinct = (message kind, outcome, #pools, max pools sharing a denom)",
+                &[ASSUME_CHAIN, ASSUME_BOUNDS],
+                t0.elapsed().as_secs_f64(),
+                json!({"shards": shards, "ops_per_shard": n}),
+            )
+        }
+        "C03" => {
+            let shards = cfg.pick(4, 32);
+            let n = cfg.pick(2_500, 12_000);
+            let mut rep = crate::run_shards(cfg, shards, |s| {
+                pool_shard(cfg, s, n, vec![Box::new(c03::C03::new(cfg.seed * 977 + s as u64))], &|g, _| {
+                    g.weights = [40, 20, 8, 10, 6, 3, 1, 1, 2];
+                })
+            });
+            rep.floor("cp_k", 500);
+            rep.floor("ss_D", 500);
+            rep.floor("round_trip", 200);
+            rep.finish(
+                &cfg.tier,
+                cfg.seed,
+                "exploration",
+                "W-pool (swap-heavy mix): every executed hop (direct, routed, internal swap of single-asset deposits) is judged with exact big-integer x*y resp. exact Curve D from the reserves before/after; every 6th step a forked there-and-back trade (1-3 pools, proceeds returned in 1-4 chunks) is executed and the trader's balance compared; distinct = (pool, direction, offer magnitude, path)",
+                &[ASSUME_CHAIN, ASSUME_BOUNDS, "exact D resolved to 1e-6 of a normalised smallest unit; a decrease below that resolution is not reported"],
+                t0.elapsed().as_secs_f64(),
+                json!({"shards": shards, "ops_per_shard": n}),
+            )
+        }
+        "C04" => {
+            let shards = cfg.pick(4, 32);
+            let n = cfg.pick(3_000, 15_000);
+            let mut rep = crate::run_shards(cfg, shards, |s| {
+                pool_shard(cfg, s, n, vec![Box::new(c04::C04::default())], &|g, _| {
+                    g.weights = [40, 25, 8, 8, 6, 4, 2, 2, 3];
+                })
+            });
+            rep.floor("hop_identity_and_fees", 1_000);
+            rep.floor("bank_slice", 500);
+            rep.floor("nobody_else", 500);
+            rep.floor("route_chaining", 100);
+            rep.finish(
+                &cfg.tier,
+                cfg.seed,
+                "exploration",
+                "W-pool (swap/route-heavy mix, fee structures 0..20% with several extra fees, receivers = sender/other user/contract account/fee collector/invalid): for every executed hop the reserve identity and 'each fee = floor(G x share) for one gross G' are checked; for every direct and routed swap the bank-event slice is matched against the exact multiset the swap must cause and every known account's balance change must be explained by it; distinct = (pool, routed, zero-fee pattern, magnitude, #fees) / (kind, hops, receiver class)",
+                &[ASSUME_CHAIN, ASSUME_BOUNDS],
+                t0.elapsed().as_secs_f64(),
+                json!({"shards": shards, "ops_per_shard": n}),
+            )
+        }
+        "C02" => {
+            let shards = cfg.pick(4, 32);
+            let n = cfg.pick(3_000, 15_000);
+            let mut rep = crate::run_shards(cfg, shards, |s| {
+                pool_shard(cfg, s, n, vec![Box::new(c02::C02::new(cfg.seed * 131 + s as u64))], &|g, _| {
+                    g.weights = [14, 5, 30, 14, 25, 4, 2, 2, 4];
+                })
+            });
+            rep.floor("lp_mint_sources", 500);
+            rep.floor("cp_mint_bound", 150);
+            rep.floor("ss_mint_bound", 150);
+            rep.floor("withdraw_bounds", 500);
+            rep.floor("redeemable", 300);
+            rep.floor("min_liquidity", 1_000);
+            rep.finish(
+                &cfg.tier,
+                cfg.seed,
+                "exploration",
+                "W-pool (deposit/withdraw-heavy mix: balanced, skewed, partial-set, dust, single-asset, locked deposits; withdrawals from 1 unit to everything): every LP supply change is attributed to a deposit/withdrawal of that pool; every deposit transition is checked against the exact share bound (constant product: cross-multiplied min-share and sqrt(xy)/S; stableswap: exact big-integer D before/after with the statement's 2-unit granularity); every withdrawal against reserve x burned / supply; every 3rd step a forked redemption of a random LP amount; distinct = (pool, first?, magnitude, deposit shape)",
+                &[ASSUME_CHAIN, ASSUME_BOUNDS],
+                t0.elapsed().as_secs_f64(),
+                json!({"shards": shards, "ops_per_shard": n}),
+            )
+        }
+        "C12" => {
+            let shards = cfg.pick(4, 32);
+            let n = cfg.pick(3_000, 15_000);
+            let mut rep = crate::run_shards(cfg, shards, |s| {
+                pool_shard(cfg, s, n, vec![Box::new(c12::C12::new(cfg.seed * 313 + s as u64))], &|g, _| {
+                    g.weights = [40, 25, 8, 6, 6, 4, 2, 2, 3];
+                })
+            });
+            rep.floor("sim_eq_swap", 800);
+            rep.floor("route_eq", 300);
+            rep.floor("reverse_cp", 500);
+            rep.finish(
+                &cfg.tier,
+                cfg.seed,
+                "exploration",
+                "W-pool: for every generated Swap the state is forked, Simulation is queried and the same offer executed (50% tolerance): return, the four fee figures and the receiver's balance change must equal the quote; same for every simple route vs SimulateSwapOperations; every 2nd step ReverseSimulation on a random constant-product pool/ask and Simulation(quote+1) >= ask; distinct = (pool, offer denom, magnitude, outcome)",
                 &[ASSUME_CHAIN, ASSUME_BOUNDS],
                 t0.elapsed().as_secs_f64(),
                 json!({"shards": shards, "ops_per_shard": n}),
